@@ -267,7 +267,107 @@ pub fn gen_chain<R: Rng>(rng: &mut R) -> Chain {
     Chain { base, in_place, links }
 }
 
+/// An image iterator is lazy and only borrows the cell, whose lengths and angle can be changed
+/// through its handles while the iterator is alive.  Two readings are consistent: every image
+/// belongs to the lattice the cell had when the iterator was made (a snapshot), or every image
+/// belongs to the lattice the cell has when that image is handed out (live).  A pass that mixes
+/// lattices in any other way shows a set of images that no cell ever had.
+pub fn check_edit_during_iteration(ch: &Chain, st: &mut Stats) {
+    use packing::traits::Basis;
+    if !ch.in_place || ch.links.len() < 2 {
+        return;
+    }
+    let c0 = &ch.base;
+    let txt = format!(
+        "{{\"length\":{},\"ratio\":{},\"angle\":{},\"family\":\"Monoclinic\"}}",
+        serde_json::to_string(&c0.length).unwrap(),
+        serde_json::to_string(&c0.ratio).unwrap(),
+        serde_json::to_string(&c0.angle).unwrap()
+    );
+    let cell: Cell2 = match serde_json::from_str(&txt) {
+        Ok(c) => c,
+        Err(_) => return,
+    };
+    let mut dof = cell.get_degrees_of_freedom();
+    let find = |dof: &Vec<packing::StandardBasis>, v: f64| dof.iter().position(|d| d.get_value().to_bits() == v.to_bits());
+    let (il, ir, ia) = match (find(&dof, c0.length), find(&dof, c0.ratio), find(&dof, c0.angle)) {
+        (Some(a), Some(b), Some(c)) if a != b && b != c && a != c => (a, b, c),
+        _ => return,
+    };
+    let k = 1 + (c0.shells % 2);
+    let total = ((2 * k + 1) * (2 * k + 1)) as usize - if c0.zero { 0 } else { 1 };
+    let hcase = hash64(&[c0.length.to_bits(), c0.t[0].to_bits(), 77]);
+    let j = 1 + (hcase as usize) % (total - 1);
+    let l1 = ch.links[(hcase as usize / 7) % ch.links.len()];
+    let place = Affine { m: c0.m, t: c0.t };
+    let t2: Transform2 = from_affine(&place);
+    let lat0 = Lattice { a: cell.a(), b: cell.b(), theta: cell.angle() };
+    let mut it = cell.periodic_images(t2, k, c0.zero);
+    let mut got: Vec<Affine> = vec![];
+    for _ in 0..j {
+        match it.next() {
+            Some(t) => got.push(to_affine(&t)),
+            None => return,
+        }
+    }
+    dof[il].set_value(l1[0]);
+    dof[ir].set_value(l1[1]);
+    dof[ia].set_value(l1[2]);
+    let lat1 = Lattice { a: cell.a(), b: cell.b(), theta: cell.angle() };
+    for t in it.take(total + 3) {
+        got.push(to_affine(&t));
+    }
+    st.eval();
+    st.count("image_passes_with_the_cell_edited_part_way");
+    if (lat0.a - lat1.a).abs() + (lat0.b - lat1.b).abs() + (lat0.theta - lat1.theta).abs() < 1e-6 {
+        return;
+    }
+    let scale = lat0.a.abs() + lat0.b.abs() + lat1.a.abs() + lat1.b.abs();
+    let tol = 1e-9 * (1. + scale) * (k as f64 + 1. + c0.t[0].abs() + c0.t[1].abs());
+    let mut idx: Vec<(i64, i64)> = vec![];
+    for n in -k..=k {
+        for m in -k..=k {
+            if c0.zero || n != 0 || m != 0 {
+                idx.push((n, m));
+            }
+        }
+    }
+    // does the pass fit: images 0..split from lattice `la`, the rest from `lb`, each index once
+    let fits = |split: usize, la: &Lattice, lb: &Lattice| -> bool {
+        if got.len() != idx.len() {
+            return false;
+        }
+        let mut used = vec![false; idx.len()];
+        for (i, im) in got.iter().enumerate() {
+            let lat = if i < split { la } else { lb };
+            let hit = idx.iter().enumerate().position(|(q, (n, m))| {
+                if used[q] {
+                    return false;
+                }
+                let w = lat.cart(c0.t[0] + *n as f64, c0.t[1] + *m as f64);
+                (im.t[0] - w[0]).abs() <= tol && (im.t[1] - w[1]).abs() <= tol
+            });
+            match hit {
+                Some(q) => used[q] = true,
+                None => return false,
+            }
+        }
+        true
+    };
+    let snapshot = fits(got.len(), &lat0, &lat0);
+    let live = fits(j, &lat0, &lat1);
+    if !snapshot && !live {
+        st.violation(Violation {
+            kind: "c14.chain".into(),
+            signature: "Cell2::periodic_images:mixes-two-lattices-when-the-cell-is-edited-during-the-pass".into(),
+            case: serde_json::to_value(ch).unwrap(),
+            detail: json!({"images_taken_before_the_edit": j, "shells": k, "cell_before": [lat0.a, lat0.b, lat0.theta], "cell_after": [lat1.a, lat1.b, lat1.theta], "images": got.iter().map(|a| a.t).collect::<Vec<_>>(), "fits_snapshot_reading": snapshot, "fits_live_reading": live}),
+        });
+    }
+}
+
 pub fn check_chain(ch: &Chain, st: &mut Stats) {
+    check_edit_during_iteration(ch, st);
     let before = st.violations.len();
     check_chain_inner(ch, st);
     // a witness found inside a chain is only reproducible as the chain
@@ -328,7 +428,7 @@ fn check_chain_inner(ch: &Chain, st: &mut Stats) {
 }
 
 pub fn run(ctx: &Ctx) {
-    ctx.set_rule("random cells deserialised from JSON (4 families; length 0.01-100 log/uniform/special, ratio 0.1-1, angle pi/6-pi/2 and the exact family values), random fractional points, random placements (rotations, reflections, identity), shells 0..6, zero in/excluded; each case compares to_cartesian/_point/_isometry, periodic_images (as a set, each once, linear part bit-identical), area, center and corners with A=(a,0), B=(b cos t, b sin t); non-trivial = non-rectangular cell or >= 2 shells; distinct by quantised (length, ratio, angle, shells, zero, family); plus chains of 9-21 cells evaluated back to back on one thread, each sharing a, b, the angle or the area bit for bit with its predecessor while the rest differs and returning to earlier lattices - as fresh cells, and as one Cell2 moved by its own degrees of freedom");
+    ctx.set_rule("random cells deserialised from JSON (4 families; length 0.01-100 log/uniform/special, ratio 0.1-1, angle pi/6-pi/2 and the exact family values), random fractional points, random placements (rotations, reflections, identity), shells 0..6, zero in/excluded; each case compares to_cartesian/_point/_isometry, periodic_images (as a set, each once, linear part bit-identical), area, center and corners with A=(a,0), B=(b cos t, b sin t); non-trivial = non-rectangular cell or >= 2 shells; distinct by quantised (length, ratio, angle, shells, zero, family); plus chains of 9-21 cells evaluated back to back on one thread, each sharing a, b, the angle or the area bit for bit with its predecessor while the rest differs and returning to earlier lattices - as fresh cells, and as one Cell2 moved by its own degrees of freedom; image passes during which the cell is edited through its handles must fit one lattice reading (snapshot at creation, or live) as a whole");
     let n = ctx.tier.pick(12_000u64, 1_500_000u64);
     let nc = ctx.tier.pick(600u64, 60_000u64);
     par_shards(ctx, 14, 64, |_, rng, st| {
